@@ -215,6 +215,27 @@ class Trace:
         return self.vars[i][var]
 
 
+def _build_decoy():
+    import gearpy.utils as gu
+    from gearpy.powertrain import Powertrain
+    from gearpy.solver import Solver
+    J = [1e-5, 'kgm^2']
+    m = B.make_element({'type': 'motor', 'J': J, 'w0': [3000, 'rpm'], 'tmax': [2, 'Nm'], 'i0': None, 'imax': None}, 'dm')
+    g1 = B.make_element({'type': 'spur', 'n_teeth': 11, 'J': J}, 'dg1')
+    g2 = B.make_element({'type': 'spur', 'n_teeth': 97, 'J': J}, 'dg2')
+    g3 = B.make_element({'type': 'spur', 'n_teeth': 13, 'J': J}, 'dg3')
+    g4 = B.make_element({'type': 'spur', 'n_teeth': 59, 'J': J}, 'dg4')
+    gu.add_fixed_joint(m, g1)
+    gu.add_gear_mating(g1, g2, 0.7)
+    gu.add_fixed_joint(g2, g3)
+    gu.add_gear_mating(g3, g4, 0.6)
+    g4.external_torque = lambda time, angular_position, angular_speed: U.cls('Torque')(0.3, 'Nm')
+    g4.angular_position = U.cls('AngularPosition')(1, 'rad')
+    g4.angular_speed = U.cls('AngularSpeed')(2, 'rad/s')
+    pt = Powertrain(m)
+    return pt, Solver(pt)
+
+
 class Runaway(Exception):
     """a run recorded far more instants than its grid allows and had to be interrupted"""
 
@@ -231,6 +252,10 @@ def run_op(b: Built, op: dict):
     if kind == 'run':
         if b.solver is None or op.get('new_solver'):
             b.solver = Solver(powertrain=b.powertrain)
+            if b.case.get('decoy'):
+                # another, unrelated powertrain and its Solver come to life before ours runs (objects of different
+                # models must not share state)
+                b.decoy = _build_decoy()
         kw = {}
         if op.get('control') and b.control is not None:
             kw['motor_control'] = b.control
